@@ -689,6 +689,9 @@ func (r *Renderer) renderText(w util.BufWriter, source []byte, node ast.Node, en
 						if r.EastAsianLineBreaks.softLineBreak(thisLastRune, siblingFirstRune) {
 							_ = w.WriteByte('\n')
 						}
+					} else {
+						// an empty text node (it only carries a line break): nothing to join with
+						_ = w.WriteByte('\n')
 					}
 				} else if sibling != nil {
 					// the next sibling is not a text node (emphasis, link, code span, ...):
